@@ -203,6 +203,17 @@ def crafted_streams():
             newpay = pay[:8] + struct.pack('<HH', tid, len(content)) + content + rest
             g = f[:2] + struct.pack('<H', len(newpay)) + f[4:24] + newpay
             out.append(('item0-%04x' % tid, reg + g))
+    # bundles nested in bundles, every level with an offset table that names the inner bundle several times, alternating with empty
+    # (end-before-begin) regions: each level adds ~20 bytes; the work must not multiply per level
+    inner = bytes([0x4C, 0x02, 0x20, 0x02, 0x24, 0x01, 0x01, 0x00])
+    for depth in range(1, 15):
+        nrep = 2 if depth % 3 else 3
+        n = 2 * nrep
+        a, z = 2 + 2 * n, 2 + 2 * n + len(inner)
+        table = struct.pack('<H', n) + b''.join(struct.pack('<HH', a, z) for _ in range(nrep))
+        inner = bytes([0x0A, 0x02, 0x20, 0x02, 0x24, 0x01]) + table + inner
+        if depth in (3, 8, 11, 14):
+            out.append(('nested-bundle-depth', reg + E.build_unconnected(inner, ctx=b'nestnest')))
     return out
 
 
@@ -278,11 +289,14 @@ def udp_check(ctx, bad):
         for j in range(rng.randrange(3, 9)):
             g = rng.choice(good)
             k = rng.random()
-            # hostile datagrams come from other peers than the well-formed ones: a peer whose own datagram was answered with a
-            # non-zero encapsulation status is (legitimately) ignored from then on
-            peer = ('10.9.0.%d' % (rng.randrange(1, 3) if k < 0.5 else rng.randrange(3, 6)), 1000 + rng.randrange(3))
+            # hostile datagrams come from other peers and from the very peers that send the well-formed ones (a datagram is its own
+            # session: one answered with a non-zero encapsulation status ends nothing)
+            peer = ('10.9.0.%d' % (rng.randrange(1, 3) if k < 0.5 or j % 2 else rng.randrange(3, 6)), 1000 + rng.randrange(3))
             if k < 0.5:
                 dg.append((g[:19] + bytes([48 + j]) + g[20:], peer)); want.append(True)       # distinguishable sender context
+            elif k < 0.58:
+                # well-formed but unroutable (an object that does not exist): answered with a non-zero encapsulation status
+                dg.append((E.build_unconnected(L.py_req(('get', ('num', 0x77, 1, 1, None))), ctx=b'udp-noob', session=0), peer)); want.append(False)
             elif k < 0.65:
                 dg.append((g + bytes(rng.getrandbits(8) for _ in range(rng.choice([1, 2, 12, 24, 30]))), peer)); want.append(False)
             elif k < 0.75:
@@ -570,7 +584,7 @@ def run(ctx):
                 continue
         if len(hostile_for_tcp) < 5 and kind.split('@')[0] in ('random30', 'truncate', 'field16', 'garbage-after', 'cut-frame1'):
             hostile_for_tcp.append(stream)
-    for (session, frames, r0), o in zip(valid, core.run_model('session', [c06.enc_model(None, store_enc, sess, names) for sess, _, _ in valid])):
+    for (session, frames, r0), o in zip(valid, core.run_model('session', [c06.enc_model(None, store_enc, c06.model_part(None, sess)[0], names) for sess, _, _ in valid])):
         _, mhash = c06.dec_model(o)
         if r0['hang'] or r0['bad_exc']:
             bad(dict(stream=b''.join(frames).hex()), 'a well-formed session did not finish'); continue
